@@ -308,6 +308,26 @@ def run_case(ctx, rng, job):
                     if got != flat(live):
                         ctx.violation('declaration-differs-after-class-narrowing',
                                       {'cls': cname, 'object': label, 'what': what, 'proto': p, 'got': got, 'expected': flat(live)})
+    # interfaces of the other kinds the library ships: the root, interfaces derived from abstract base classes, the
+    # interfaces describing the library itself
+    if ctx.case == 0:
+        from zope.interface.common import collections as zcc, numbers as zcn, mapping as zcm
+        from zope.interface import interfaces as zii
+        shipped = [Interface, zcc.ISequence, zcc.IMutableMapping, zcn.IIntegral, zcm.IFullMapping, zii.IInterface, zii.IAdapterRegistry,
+                   zii.IComponents, zii.IRegistered]
+        for I in shipped:
+            for p in protos:
+                ctx.ev()
+                ctx.count('roundtrips[shipped-interface]')
+                try:
+                    data = pickle.dumps(I, p)
+                    u = pickle.loads(data)
+                except Exception as e:
+                    u, data = e, b''
+                if u is not I:
+                    ctx.violation('interface-not-identical', {'iface': getattr(I, '__name__', '?'), 'proto': p, 'got': repr(u)[:100]})
+                if len(data) > 200:
+                    ctx.violation('pickle-contains-definition', {'what': 'shipped interface ' + I.__name__, 'bytes': len(data)})
     # the shared empty declaration comes back as itself
     from zope.interface.declarations import _empty
     from zope.interface import classImplements, directlyProvidedBy
